@@ -5,10 +5,14 @@ use std::io::{BufRead, Write};
 use std::panic::{catch_unwind, AssertUnwindSafe};
 
 mod ops_codec;
+mod ops_gossip;
 
 fn dispatch(req: &Value) -> Value {
     let op = req["op"].as_str().unwrap_or("");
     if let Some(v) = ops_codec::handle(op, req) {
+        return v;
+    }
+    if let Some(v) = ops_gossip::handle(op, req) {
         return v;
     }
     json!({"error": format!("unknown op {op}")})
